@@ -23,7 +23,7 @@ CONV_ROUTES = ["to_DCM", "to_DCM[S]", "conjugate", "conjugate[S]", "to_angles", 
 METRIC_ROUTES = ["chordal", "qdist", "qeip", "qcip", "qad"]
 EST_ROUTES = ["Tilt/quaternion", "Tilt/angles", "Tilt/rotmat", "Tilt/acc-only", "SAAM/quaternion", "SAAM/rotmat", "FAMC", "FQA",
               "QUEST", "Davenport", "FLAE/symbolic", "FLAE/eig", "FLAE/newton", "TRIAD/rotmat/NED", "TRIAD/quaternion/NED",
-              "TRIAD/rotmat/ENU", "TRIAD/quaternion/ENU", "AQUA/am/NED", "AQUA/am/ENU", "AQUA/acc/NED", "OLEQ/NED", "OLEQ/ENU"]
+              "TRIAD/rotmat/ENU", "TRIAD/quaternion/ENU", "TRIAD/rotmat/NED[references assigned]", "TRIAD/quaternion/NED[references assigned]", "AQUA/am/NED", "AQUA/am/ENU", "AQUA/acc/NED", "OLEQ/NED", "OLEQ/ENU"]
 ROUTES = CONV_ROUTES + METRIC_ROUTES + EST_ROUTES
 BRANCH_CUT_ROUTES = {"Tilt/quaternion", "Tilt/angles", "Tilt/acc-only", "am2angles", "to_angles", "AQUA/am/NED", "AQUA/am/ENU", "AQUA/acc/NED", "FQA", "SAAM/quaternion"}
 REGIONS = {"rows:generic": 30, "rows:special": 30, "rows:one": 30, "metric:generic": 30, "metric:close": 30, "metric:exact": 30, "est:generic": 30, "est:one": 30, "est:scaled": 30,
@@ -200,6 +200,14 @@ def cmp_rows(ctx, route, batch_out, singles, tol, what="batch row = single item"
     ctx.le(what, worst, tol, detail, route=route)
 
 
+def _derived():
+    import copy
+    return [(".copy()", lambda X: X.copy()), ("copy.copy()", copy.copy), ("copy.deepcopy()", copy.deepcopy), (".view()", lambda X: X.view()), ("full slice [:]", lambda X: X[:])]
+
+
+DERIVED = _derived()
+
+
 def check_rows(case, ctx):
     import ahrs
     from ahrs.common import orientation as o
@@ -221,6 +229,15 @@ def check_rows(case, ctx):
     cmp_rows(ctx, "rpy2q", call(lambda: o.rpy2q(ang.copy()).T if N > 0 else None), [call(lambda i=i: o.rpy2q(ang[i].copy())) for i in range(N)], TOL_CONV)
     cmp_rows(ctx, "ned2enu", call(lambda: frames.ned2enu(V.copy())), [call(lambda i=i: frames.ned2enu(V[i].copy())) for i in range(N)], 0.0)
     cmp_rows(ctx, "am2angles", call(lambda: o.am2angles(a.copy(), m.copy())), [call(lambda i=i: o.am2angles(a[i].copy(), m[i].copy())[0]) for i in range(N)], TOL_EST)
+    # ---- objects a caller derived from the constructed one (a copy, a view, a full slice): the same quaternions, so the same rows on both paths
+    import copy as _copy
+    kd = int(abs(float(Q[0, 0])) * 1e6) % len(DERIVED)
+    dn, df = DERIVED[kd]
+    for nm, meth in (("to_DCM", lambda X: X.to_DCM()), ("conjugate", lambda X: X.conjugate() if callable(X.conjugate) else X.conjugate), ("to_angles", lambda X: X.to_angles()),
+                     ("w", lambda X: np.asarray(X.w, float)), ("v", lambda X: np.asarray(X.v, float))):
+        for sfx, data, kw in (("", Q, {}), ("[S]", QS, {"order": "S"})):
+            cmp_rows(ctx, "%s%s[derived object]" % (nm, sfx), call(lambda: meth(df(QA(data.copy(), **kw)))),
+                     [call(lambda i=i: meth(df(Qn(data[i].copy(), **kw)))) for i in range(N)], TOL_CONV, what="batch row = single item on a %s of the object" % dn)
     if case.region == "rows:integer":
         for route, fn, args in (("to_DCM", lambda x: QA(x).to_DCM(), [Q]), ("conjugate", lambda x: QA(x).conjugate(), [Q]), ("to_angles", lambda x: QA(x).to_angles(), [Q]),
                                 ("from_rpy", lambda x: np.asarray(QA(rpy=x)), [ang]), ("q2R.v1", lambda x: o.q2R(x), [Q]), ("q2R.v2", lambda x: o.q2R(x, version=2), [Q]),
@@ -289,6 +306,17 @@ def check_est(case, ctx):
         "AQUA/am/ENU": (lambda a, m: F.AQUA(a, m, frame="ENU").Q, lambda a, m: F.AQUA(frame="ENU").estimate(a, m)),
         "AQUA/acc/NED": (lambda a, m: F.AQUA(a).Q, lambda a, m: F.AQUA().estimate(a)),
     }
+    # the route of TRIAD's docstring examples: references assigned to the object after construction
+    def triad_assigned(v1, v2, rep=None):
+        def one(a, m):
+            t = F.TRIAD()
+            t.v1 = v1.copy()
+            t.v2 = v2.copy()
+            return t.estimate(a, m) if rep is None else t.estimate(a, m, rep)
+        return one
+    gN = np.array([0.0, 0.0, 1.0])
+    specs["TRIAD/rotmat/NED[references assigned]"] = (lambda a, m: F.TRIAD(a, m, v1=gN.copy(), v2=mN.copy()).A, triad_assigned(gN, mN))
+    specs["TRIAD/quaternion/NED[references assigned]"] = (lambda a, m: F.TRIAD(a, m, v1=gN.copy(), v2=mN.copy(), representation="quaternion").A, triad_assigned(gN, mN, "quaternion"))
     for meth in ("symbolic", "eig", "newton"):
         specs["FLAE/" + meth] = (lambda a, m, meth=meth: F.FLAE(a, m, method=meth, magnetic_dip=dip).Q,
                                  lambda a, m, meth=meth: F.FLAE(magnetic_dip=dip).estimate(a, m, method=meth))
